@@ -352,6 +352,38 @@ Theorem C09_tree_ownership_refuted :
     inv_trees_nonnested_b s = false /\ inv_tree_owns_b s = false.
 Proof. exists 3, recycle_tree_witness. vm_compute. repeat split; reflexivity. Qed.
 
+(* T2 / T3 are invariants under the hypothesis that no define_step transaction re-attaches a static
+   tree (no_tree_reattached_b: sharper than "no full recycle of a step whose recursive products
+   contain a tree" -- a recycle under a detached creator leaves the trees detached).  The inductive
+   form of T3 is inv_tree_claims_b (EVERY file node with a creator, attached or not, that lies under an
+   attached tree is a file of that tree); inv_tree_strong_b = T1 && T2 && claims implies inv_tree_b. *)
+Theorem C09_tree_ownership_partial :
+  forall s o, inv_core_b s = true -> inv_tree_strong_b s = true ->
+              static_requester_b o = true -> no_tree_reattached_b s o = true ->
+              inv_tree_strong_b (apply_op_t s o) = true.
+Proof. exact inv_tree_strong_preserved. Qed.
+
+Theorem C09_tree_ownership_every_prefix_partial :
+  forall cap ops, tree_hyps_run (init_st cap) ops = true ->
+                  all_prefixes_ok_t inv_tree_strong_b (init_st cap) ops = true.
+Proof. exact reachable_inv_tree_strong. Qed.
+
+Theorem C09_tree_strong_implies_tree :
+  forall s, inv_core_b s = true -> inv_tree_strong_b s = true -> inv_tree_b s = true.
+Proof. exact inv_tree_of_strong. Qed.
+
+(* the D33 witness: the hypothesis holds for every transaction but the last (the full recycle of A),
+   the strong conjuncts hold before it and T2, T3 fail after it *)
+Theorem C09_tree_hypothesis_necessary :
+  exists cap ops o, let s := run_ops_t ops (init_st cap) in
+    tree_hyps_run (init_st cap) ops = true /\ static_requester_b o = true /\
+    no_tree_reattached_b s o = false /\ inv_tree_strong_b s = true /\
+    inv_trees_nonnested_b (apply_op_t s o) = false /\ inv_tree_owns_b (apply_op_t s o) = false.
+Proof.
+  exists 3, (removelast recycle_tree_witness), (OpBase (OpDefineStep (KStep, plan_label) treeA [] [] [] [] NDefault)).
+  vm_compute. repeat split; reflexivity.
+Qed.
+
 (* ------------------------------------------------------------------------------------------ *)
 (* 5. the hand-written tables of the model equal the tables regenerated from the source        *)
 (* ------------------------------------------------------------------------------------------ *)
